@@ -6,7 +6,8 @@ in : {"ucd":{"word":[cp…],"digit":[…],"space":[…]}, "rxlib":[RX…],
      RX = ["eps"] | ["chr",cp] | ["any"] | ["all"] | ["set",neg,[["c",cp]|["r",lo,hi]|["e","d"|"w"|"s"]…]] | ["esc",k,neg]
         | ["seq",RX,RX] | ["alt",RX,RX] | ["rep",greedy,min,max|null,RX]
      or {"op":"tables"}  (the ASCII tables of the model, compared with `re` by the harness)
-     a route may carry the add_route layer: "top":T|null, "prefixes":[T|null…], "usepath":bool, "inherit":bool, "nopattern":bool
+     a route may carry "builtins":[[keyword, null | bool]…]: built-in predicate keywords as passed (null = None; bool = what the
+     predicate made from the given value answers for this request), and the add_route layer: "top":T|null, "prefixes":[T|null…], "usepath":bool, "inherit":bool, "nopattern":bool
 out: {"connected":[T | "patternNone" | "inheritSlash"…] (the pattern add_route hands to connect; refused ones are not declared),
       "rxtext":[T…], "rxok":[bool…], "compile":["ok"|"reerror"|"unsupported"…], "regex":[T|null…], "gen":[T|null…],
       "routelist":[id…], "unsupported":bool, "outcome":"urldecode"|"none"|{"id":n,"idx":i,"match":[[T,"s",T]|[T,"t",[T…]]…]},
@@ -130,9 +131,22 @@ def main : IO Unit := jsonDriver fun j => do
       | .ok (.arr xs) => xs.toList.mapM fun x => (match x with | .null => pure none | v => do pure (some (← jText v)))
       | _ => pure []
     let flag (k : String) : Bool := match r.getObjVal? k with | .ok (.bool true) => true | _ => false
+    let kindOf (k : String) : Except String BuiltinKind :=
+      match k with
+      | "xhr" => pure .xhr | "request_method" => pure .requestMethod | "path_info" => pure .pathInfo
+      | "request_param" => pure .requestParam | "header" => pure .header | "accept" => pure .accept
+      | "is_authenticated" => pure .isAuthenticated | "effective_principals" => pure .effectivePrincipals
+      | "traverse" => pure .traverse | _ => throw s!"unknown built-in predicate keyword {k}"
+    let builtins ← match r.getObjVal? "builtins" with
+      | .ok (.arr xs) => xs.toList.mapM fun x => (match x with
+          | .arr #[.str k, .null] => do pure ((← kindOf k), (none : Option Pred))
+          | .arr #[.str k, .bool b] => do pure ((← kindOf k), some (Pred.const b))
+          | _ => throw "bad builtins entry")
+      | _ => pure []
     let args : RouteArgs :=
       { name := name, pattern := if flag "usepath" || flag "nopattern" then none else some pattern,
-        path := if flag "usepath" then some pattern else none, inheritSlash := flag "inherit", static := static, preds := preds }
+        path := if flag "usepath" then some pattern else none, inheritSlash := flag "inherit", static := static, preds := preds,
+        builtins := builtins }
     pure (name, addRoute (prefixAt top prefixes) args)
   let decls := added.filterMap fun (x : Text × Except AddErr (Text × List Pred × Bool)) =>
     match x.2 with
